@@ -111,3 +111,85 @@ Example C10_extra_lengths_instance O :
 Proof.
   repeat split; intros obj H; apply C10_extra_exact_key_lengths in H; try (left; discriminate); vm_compute in H; discriminate.
 Qed.
+
+(* ================= theorems added after the first audit ================= *)
+From PV Require Import Paserk PaserkProofs PaserkTamper PkeProofs ToyOracle.
+
+Definition seed32 : bytes := map (fun i => n2b (N.of_nat i)) (seq 1 32).
+Definition small48 : bytes := repeat x00 46 ++ [n2b 1; n2b 2].
+Definition n32 : bytes := repeat x07 32.
+Definition secret64 : bytes := repeat x33 64.
+Definition hdr_l : bytes := str ".local-wrap.pie.".
+Definition hdr_s : bytes := str ".secret-wrap.pie.".
+
+(* apply the theorem to ACCEPTED keys and read off the length the kind demands *)
+Example C10_key_lengths_exact_nonvacuous :
+  length (seed32 ++ toy_edpk) = klen B4 KSecret /\ klen B4 KSecret = 64 /\
+  length small48 = klen B3A KPkeSecret /\ klen B3A KPkeSecret = 48 /\
+  length toy_p384 = klen B3 KPublic /\ klen B3 KPublic = 49 /\
+  length seed32 = klen B1 KLocal /\ klen B1 KLocal = 32.
+Proof.
+  split; [apply (C10_key_lengths_exact toy B4 KSecret (seed32 ++ toy_edpk) seed32); [left; discriminate|vm_compute; reflexivity]|].
+  split; [reflexivity|].
+  split; [apply (C10_key_lengths_exact toy B3A KPkeSecret small48 small48); [left; discriminate|vm_compute; reflexivity]|].
+  split; [reflexivity|].
+  split; [apply (C10_key_lengths_exact toy B3 KPublic toy_p384 toy_p384); [left; discriminate|vm_compute; reflexivity]|].
+  split; [reflexivity|].
+  split; [apply (C10_key_lengths_exact toy B1 KLocal seed32 seed32); [right; reflexivity|vm_compute; reflexivity]|reflexivity].
+Qed.
+(* used as a rejection rule: the 64 bytes of a v4 secret key are never a v4 public / local / v3 secret key, for
+   any oracle at all *)
+Example C10_key_lengths_exact_nonvacuous_rejects : forall O obj,
+  key_decode O B4 KPublic (seed32 ++ toy_edpk) <> Ok obj /\ key_decode O B4 KLocal (seed32 ++ toy_edpk) <> Ok obj /\
+  key_decode O B3 KSecret (seed32 ++ toy_edpk) <> Ok obj.
+Proof.
+  intros O obj. repeat split; intros H; apply C10_key_lengths_exact in H; try (left; discriminate);
+    vm_compute in H; discriminate H.
+Qed.
+(* WEAKER (visible in the statement): equal-length kinds are not separated by this theorem — a 32-byte v4 public
+   key IS accepted as a local key (and as a v2 public key); that confusion is only excluded at the TEXT level
+   (C10_cross_kind_rejected), not for raw bytes handed to from_bytes. *)
+Lemma C10_key_lengths_exact_same_length_kinds_pass :
+  key_decode toy B4 KPublic toy_edpk = Ok toy_edpk /\ key_decode toy B4 KLocal toy_edpk = Ok toy_edpk /\
+  key_decode toy B2 KPublic toy_edpk = Ok toy_edpk.
+Proof. repeat split; vm_compute; reflexivity. Qed.
+
+(* the three relabel theorems are the C06 MAC-input statements again (same proofs terms) *)
+Example C10_pie_relabel_changes_mac_input_nonvacuous :
+  pie_ver (v3_pie toy) ++ hdr_l ++ n32 ++ secret64 <> pie_ver (pieA toy (str "k1") 128) ++ hdr_l ++ n32 ++ secret64 /\
+  pie_ver (v4_pie toy) ++ hdr_l ++ n32 ++ secret64 <> pie_ver (v4_pie toy) ++ hdr_s ++ n32 ++ secret64 /\
+  pie_ver (v4_pie toy) ++ hdr_l ++ n32 ++ secret64 <> pie_ver (pieB toy (str "k2")) ++ hdr_s ++ n32 ++ secret64.
+Proof.
+  repeat split; apply C10_pie_relabel_changes_mac_input; try reflexivity; try (cbn; tauto); vm_compute; discriminate.
+Qed.
+(* the fixed-width hypotheses are needed: with a 3-byte "version" the boundary version | header can move *)
+Example C10_pie_relabel_changes_mac_input_nonvacuous_hyp_needed :
+  (str "k3." ++ str "local-wrap.pie." ++ n32 ++ secret64 = str "k3" ++ hdr_l ++ n32 ++ secret64) /\
+  (str "k3.", str "local-wrap.pie.", n32, secret64) <> (str "k3", hdr_l, n32, secret64).
+Proof. split; [reflexivity|vm_compute; discriminate]. Qed.
+
+Example C10_pbkw_relabel_changes_mac_input_nonvacuous :
+  str "k3" ++ str ".local-pw." ++ z 52 ++ seed32 <> str "k1" ++ str ".local-pw." ++ z 52 ++ seed32 /\
+  str "k3" ++ str ".local-pw." ++ z 52 ++ seed32 <> str "k3" ++ str ".secret-pw." ++ z 52 ++ seed32 /\
+  (str "k3", str ".local-pw.", z 52, seed32) = (str "k3", str ".local-pw.", z 52, seed32).
+Proof.
+  split; [|split].
+  - intros E. apply C10_pbkw_relabel_changes_mac_input in E; try reflexivity; try (cbn; tauto). vm_compute in E. discriminate E.
+  - intros E. apply C10_pbkw_relabel_changes_mac_input in E; try reflexivity; try (cbn; tauto). vm_compute in E. discriminate E.
+  - apply C10_pbkw_relabel_changes_mac_input; try reflexivity; cbn; tauto.
+Qed.
+
+Example C10_seal_relabel_changes_mac_input_nonvacuous :
+  str "k4" ++ str ".seal." ++ n32 ++ seed32 <> str "k2" ++ str ".seal." ++ n32 ++ seed32 /\
+  (str "k4", n32, seed32) = (str "k4", n32, seed32).
+Proof.
+  split.
+  - intros E. apply C10_seal_relabel_changes_mac_input in E; try reflexivity. vm_compute in E. discriminate E.
+  - apply (C10_seal_relabel_changes_mac_input _ _ (str ".seal.")); reflexivity.
+Qed.
+(* WEAKER (scope): the header [h] is the same variable on both sides, so the statement does not speak about a seal
+   blob presented under a different HEADER; and k3 vs k4 seal blobs have different epk lengths (49 / 32), which
+   the equal-length hypothesis excludes — the cross-version case k3 <-> k4 is therefore not an instance: *)
+Lemma C10_seal_relabel_not_an_instance_across_families :
+  length (toy_p384) <> length n32.
+Proof. vm_compute. discriminate. Qed.
